@@ -232,11 +232,15 @@ func runTr(c TrCase) ev.Verdict {
 		}
 	} else {
 		d, nerr := generic.NewDriver("127.0.0.1", opts...)
-		if nerr != nil {
+		if nerr != nil && wantOpen {
 			return ev.Fail("NewDriver: %v", nerr)
 		}
 
-		if openErr = d.Open(); openErr == nil {
+		if nerr != nil {
+			// refused at construction (a key passphrase the transport does not take, say): what
+			// was logged on the way is still looked at
+			openErr = nerr
+		} else if openErr = d.Open(); openErr == nil {
 			_, _ = d.SendCommand("show version")
 			_ = d.Close()
 		}
